@@ -615,6 +615,10 @@ pub fn replay(v: &serde_json::Value) -> i32 {
 
 fn run_s(prop: &'static str, tier: Tier) -> i32 {
     let run = Run::new(prop, "model_checking", tier);
+    if prop == "C10" && crate::sched::selftest() != 0 {
+        eprintln!("MACHINERY-ERROR: scheduler self-test failed");
+        return 2;
+    }
     let bound = std::env::var("VERIF_PREEMPTIONS").ok().and_then(|v| v.parse().ok()).unwrap_or(if tier == Tier::Quick { 3 } else { 4 });
     let total = Duration::from_secs(std::env::var("VERIF_BUDGET_S").ok().and_then(|v| v.parse().ok()).unwrap_or(if tier == Tier::Quick { 50 } else { 900 }));
     let started = Instant::now();
